@@ -102,4 +102,8 @@ def _run(ctx, chk, prog, tag):
     import rules as _rde
     _rde.check_declared_effects(chk, "C18.declared-effects", prog, eff)
     chk.count("functions", len(prog.lib_funcs()))
+    chk.rule("C18.signed-compare", "no 64-bit comparison in the library is signed: sizes, lengths, counts, indices and remainders are compared as the unsigned "
+             "quantities they are (a refused lookup touches nothing)")
+    import rules as _rsc
+    _rsc.check_signed_compare(chk, "C18.signed-compare", prog)
     chk.exhaustive = True
